@@ -482,6 +482,53 @@ fn random_escaped_literals(src: &mut Src, obs: &mut Obs) -> Res {
     }
 }
 
+/// singular-query operands whose member names contain `/` or a backslash, written with the escapes
+/// `\/` and `\\` (the two escapes the library decodes in name selectors) or plainly
+fn random_escaped_names(src: &mut Src, obs: &mut Obs) -> Res {
+    let names = ["a/b", "/", "\\", "a\\b", "//", "a/", "\\/"];
+    let n1 = *src.pick(&names);
+    let n2 = *src.pick(&names);
+    let spell = |src: &mut Src, name: &str| -> StrLit {
+        let mut raw = String::new();
+        for c in name.chars() {
+            match c {
+                '/' => raw.push_str(if src.bool() { "\\/" } else { "/" }),
+                '\\' => raw.push_str("\\\\"),
+                c => raw.push(c),
+            }
+        }
+        StrLit { val: name.to_string(), quote: if src.bool() { Quote::S } else { Quote::D }, raw }
+    };
+    let vals = [J::Int(1), J::Int(2), J::Str("x".into()), J::Null];
+    let mut m: Vec<(String, J)> = vec![];
+    for n in names {
+        if src.chance(2, 3) {
+            m.push((n.to_string(), src.pick(&vals).clone()));
+        }
+    }
+    let doc = J::Obj(vec![("e".to_string(), J::Arr(vec![J::Obj(m.clone())])), ("g".to_string(), J::Obj(m))]).sorted();
+    let l = Cmpable::Sing(Sing { abs: false, steps: vec![SingStep::Name(spell(src, n1), false)] });
+    let r = match src.below(3) {
+        0 => Cmpable::Sing(Sing { abs: true, steps: vec![name_step("g", true), SingStep::Name(spell(src, n2), false)] }),
+        1 => Cmpable::Sing(Sing { abs: false, steps: vec![SingStep::Name(spell(src, n2), false)] }),
+        _ => Cmpable::Lit(Lit::Num(num_lit_int(src.range(1, 2)))),
+    };
+    let op = *src.pick(&Op::ALL);
+    let q = cell_query(l, op, r);
+    let text = render_plain(&q);
+    let exp = !oracle::eval(&q, &doc, &Quirks::strict()).is_empty();
+    obs.label("escaped-slash-or-backslash-in-operand-name");
+    obs.nontrivial(&(text.as_str(), doc.text()), || json!({"query": text, "doc": doc.to_value(), "expected": exp}));
+    let got = lib_truth(&q, &doc, obs)?;
+    if got != exp {
+        return Err(Failure::new(
+            "comparison whose operand is a singular query with an escaped `/` or backslash in a member name differs from RFC 9535",
+            json!({"query": text, "doc": doc.to_value(), "expected": exp, "library": got}),
+        ));
+    }
+    Ok(())
+}
+
 fn direct(case: &Value, obs: &mut Obs) -> Res {
     // {"query": "...", "doc": ..., } : the filter must keep exactly the nodes the reference evaluator keeps
     let (q, text, doc) = crate::props::c01::parse_direct(case)?;
@@ -520,6 +567,7 @@ pub fn prop() -> Prop {
             Sub { name: "table-fn-numbers", kind: Kind::Exhaustive(table_fn_numbers) },
             Sub { name: "random-deep", kind: Kind::Random { f: random_deep, quick: 100_000, thorough: 2_000_000, len: 300 } },
             Sub { name: "random-numbers", kind: Kind::Random { f: random_numbers, quick: 100_000, thorough: 2_000_000, len: 32 } },
+            Sub { name: "random-escaped-names", kind: Kind::Random { f: random_escaped_names, quick: 40_000, thorough: 800_000, len: 100 } },
             Sub { name: "random-escaped-literals", kind: Kind::Random { f: random_escaped_literals, quick: 40_000, thorough: 800_000, len: 64 } },
         ],
         direct: Some(direct),
